@@ -575,6 +575,24 @@ func (r *Rec) c17Bytes() []byte {
 	}
 	b := make([]byte, n)
 	r.Rng.Read(b)
+	// call data that is itself TEXT: only ASCII hex digits (with or without a 0x in front), only decimal digits, printable
+	// ASCII, a JSON document - the payload is bytes, whatever they spell, and is forwarded as those bytes
+	if n >= 4 && r.Rng.Intn(6) == 0 {
+		alpha := []string{"0123456789abcdef", "0123456789ABCDEF", "0123456789", "0123456789abcdefABCDEF", " !\"#$%&'()*+,-./:;<=>?@[]^_{|}~xyzXYZ"}[r.Rng.Intn(5)]
+		for i := range b {
+			b[i] = alpha[r.Rng.Intn(len(alpha))]
+		}
+		switch r.Rng.Intn(5) {
+		case 0:
+			b[0], b[1] = '0', 'x'
+		case 1:
+			b[0], b[1] = '0', 'X'
+		case 2:
+			copy(b, []byte(`{"hexPayload":"`))
+		}
+		r.Stat("payload.spells_text")
+		return b
+	}
 	if n > 0 && r.Rng.Intn(4) == 0 {
 		b[0] = byte(r.Rng.Intn(16)) // leading nibble zero: odd-length hex style applies
 	}
